@@ -381,6 +381,13 @@ func (fe *FactEngine) resolve(a *Alt, v ssa.Value) *Term {
 }
 
 func (a *Alt) setBind(key, val *Term) {
+	if len(val.String()) > maxBindTermLen {
+		// widening: refuse to track very large symbolic values
+		delete(a.bind, key.String())
+		delete(a.bkey, key.String())
+		a.sig = ""
+		return
+	}
 	a.bind[key.String()] = val
 	a.bkey[key.String()] = key
 	a.sig = ""
@@ -846,6 +853,43 @@ func blockInCycle(b *ssa.BasicBlock) bool {
 	return res
 }
 
+// widenLoopBinds: at a loop header, a binding that is not the same in every incoming alternative is
+// loop-variant (or branch-dependent); it is dropped from all alternatives, together with the facts
+// that mention the bound value, so that values re-assigned in the loop cannot build ever-growing
+// terms (x = f(x) → f(f(x)) → ...). Facts are only dropped, never invented.
+func widenLoopBinds(d DNF) {
+	if len(d) == 0 {
+		return
+	}
+	common := map[string]string{}
+	for k, v := range d[0].bind {
+		common[k] = v.String()
+	}
+	for _, a := range d[1:] {
+		for k, vs := range common {
+			if bv, ok := a.bind[k]; !ok || bv.String() != vs {
+				delete(common, k)
+			}
+		}
+	}
+	for _, a := range d {
+		for k, v := range a.bind {
+			if _, ok := common[k]; ok {
+				continue
+			}
+			vs := v.String()
+			delete(a.bind, k)
+			delete(a.bkey, k)
+			a.sig = ""
+			if len(vs) > 60 {
+				a.killIf(func(_ string, t *Term) bool { return len(t.String()) > len(vs) && t.Contains(v) })
+			}
+		}
+	}
+}
+
+const maxBindTermLen = 1200
+
 func isLoopHeader(b *ssa.BasicBlock) bool {
 	for _, p := range b.Preds {
 		if b.Dominates(p) {
@@ -900,6 +944,9 @@ func (fe *FactEngine) run(fn *ssa.Function, entry DNF, depth int) *fnFacts {
 						joined = append(joined, fe.bindPhis(copyDNF(eo[j]), pb, s)...)
 					}
 				}
+			}
+			if isLoopHeader(s) {
+				widenLoopBinds(joined)
 			}
 			nj, col := normalizeDNF(joined, ff.collapsed[s])
 			if col {
